@@ -1,22 +1,25 @@
 #!/bin/sh
-# Applies every change of tools/detection_table.txt to /repo, runs the listed quick checks (no evidence
-# written), reverts, and writes /verif/seeded/detection.json. Long (about 1-2 minutes per line and check).
+# Runs every change of tools/detection_table.txt (in a scratch worktree, /repo is never touched) against the
+# listed quick checks and writes /verif/seeded/detection.json. Long: about 1-2 minutes per line and check.
 cd /verif || exit 2
 out=/verif/seeded/detection.json
 echo "[" > $out.tmp
 first=1
 while read patch ids; do
   [ -z "$patch" ] && continue
-
-
-  cd /verif
-  for id in $ids; do
-    o=$(VERIF_NO_EVIDENCE=1 bin/vcheck $id --tier quick 2>/dev/null); code=$?
-    job=$(echo "$o" | grep -m1 '^  violation:' | sed 's/^  violation: //' | cut -c1-200 | sed 's/"/\\"/g')
-    [ $first -eq 1 ] || echo "," >> $out.tmp; first=0
-    printf ' {"change":"%s","check":"%s","exit":%d,"detected":%s,"first_violation":"%s"}' "$patch" "$id" "$code" "$([ $code -eq 1 ] && echo true || echo false)" "$job" >> $out.tmp
-    echo "$patch $id exit=$code"
-  done
-  git -C /repo checkout -- . ; git -C /repo clean -fdq
+  wt=$(mktemp -d /tmp/detect-XXXXXX)
+  git -C /repo worktree add -q --detach "$wt" HEAD || exit 2
+  if git -C "$wt" apply /verif/$patch; then
+    for id in $ids; do
+      o=$(VERIF_REPO="$wt" VERIF_NO_EVIDENCE=1 bin/vcheck $id --tier quick 2>/dev/null); code=$?
+      job=$(echo "$o" | grep -m1 '^  violation:' | sed 's/^  violation: //' | cut -c1-200 | sed 's/\\/\\\\/g; s/"/\\"/g')
+      [ $first -eq 1 ] || echo "," >> $out.tmp; first=0
+      printf ' {"change":"%s","check":"%s","exit":%d,"detected":%s,"first_violation":"%s"}' "$patch" "$id" "$code" "$([ $code -eq 1 ] && echo true || echo false)" "$job" >> $out.tmp
+      echo "$patch $id exit=$code"
+    done
+  else
+    echo "cannot apply $patch"
+  fi
+  git -C /repo worktree remove --force "$wt" 2>/dev/null; rm -rf "$wt"; git -C /repo worktree prune
 done < /verif/tools/detection_table.txt
 echo "" >> $out.tmp; echo "]" >> $out.tmp; mv $out.tmp $out
